@@ -298,6 +298,7 @@ def build(tier, seed):
 
 
 class MTVRP(Adapter):
+    reward_from_actions = True
     name = "mtvrp"
     module = "MTVRP"
     properties = ("C01", "C02", "C03", "C04", "C05", "C06")
